@@ -23,3 +23,23 @@ add("C14", "exploration",
     "Held on the executions explored: for the 8 common methods every generated request (valid and invalid, string and integer ids) got the same normalised result or the same error code on Streamable (JSON, SSE, stateless, sessions disabled), legacy SSE and stdio; the three clients returned equal values / equal error classes for 19 operations.",
     "Normalisation drops error wording, item order and session-specific strings, as the statement allows. Client comparison relies on the server part having established equal server answers.",
     "DESIGN.md section 4 C14")
+add("C02", "exploration",
+    "runtime monitoring: generated handler return values served through all 7 configurations with the library client of each transport; structural comparer over the concrete Go types (not library marshalling), failing cases attributed to the smallest (content kind, string class) by re-testing items alone, wire corroboration by raw peer",
+    "Held on the executions explored: every generated tool / prompt / resource result (4 content kinds x string classes incl. empty, CR/LF, U+2028, astral, control, 64 KiB and multi-MiB; isError; structured content to depth 5; roles; text and blob resources), handler errors with Unicode messages and all descriptors came back equal item for item over every transport.",
+    "Invalid UTF-8 / lone surrogates and content annotations are outside the statement. The comparer is self-tested against mutated values before every run.",
+    "DESIGN.md section 4 C02")
+add("C15", "exploration",
+    "runtime monitoring: instrumented middlewares record a per-request trace (keyed by the request id) compared with a reference onion interpreter; all chains up to length 4 over 6 behaviours, 3 server kinds, both option forms, overlapping requests released by gates",
+    "Held on the executions explored: every request's stage trace, what each stage saw, and the wire answer equalled the reference interpreter's prediction; each stage ran exactly once with the requesting session; short-circuits stopped everything inside; a middleware error became -32603 for that request only; notifications never entered the chain.",
+    "Trusted: the reference interpreter (model.go) and the harness middlewares. Behaviours apply to observable methods (tools/call, tools/list, ping, prompts/get).",
+    "DESIGN.md section 4 C15")
+add("C16", "exploration",
+    "runtime monitoring: raw peers for version negotiation / capabilities on all 7 configurations (incl. registration concurrent with handshakes); client FSM reference model over seeded call histories on the three client kinds against library-free recording servers (HTTP request count / stdio process spawn and stdin lines)",
+    "Held on the executions explored: initialize answers always carried a supported version (the requested one when supported, else the latest), the configured server info and exactly the capability set of a registration state that existed during the request; clients sent nothing before a successful handshake, refused a second one, and reported states equal to the reference FSM after every step.",
+    "Any non-nil error is accepted as 'not initialized'. After a failed handshake a later Initialize may succeed or fail; only consistency is required. Legacy SSE / stdio transports cannot be reused after Close.",
+    "DESIGN.md section 4 C16")
+add("C17", "fault_enumeration",
+    "runtime monitoring with fault enumeration: retry.Execute driven through verif re-exports with all outcome scripts (real error values of every class) on a boundary-value grid, computed back-offs observed through the back-off hook (virtual time) and compared exactly with a big.Rat reference model; cancellation injected at every wait and attempt; end-to-end scripted servers for both HTTP clients",
+    "Held on the executions explored: attempts == model for every enumerated script (all scripts up to MaxRetries+2 for MaxRetries<=3, sampled to 10), every wait == min(Initial*Factor^(k-1), Max), cancellation at every wait index returned the context error with no further attempt, Validate clamped every grid/extreme configuration idempotently, no retry option => exactly one attempt; end to end the servers counted the same attempts.",
+    "Transient classes not named by the statement (response-header timeout, http.Client.Timeout, truncated body) are observed and reported, not judged.",
+    "DESIGN.md section 4 C17")
